@@ -168,6 +168,8 @@ def trxcon_end_to_end(ctx, rng):
             ("setfreq_h1", 17, 3, [1, 5, 9, 100]), ("poweron",), ("poweroff",),
             ("setfreq_h1", 63, 63, list(range(1, 65))),            # the longest mobile allocation trxcon can encode
             ("setfreq_h1", 1, 0, list(range(955, 1019))), ("poweron",), ("setta", 63), ("measure", 1023), ("poweroff",)]
+    for ta in (-128, -127, -64, -1, 0, 1, 64, 127, rng.range(-128, 127)):       # the documented range of trxcon's SETTA (distance spoofing below 0)
+        cmds.append(("setta", ta))
     for _ in range(10 if ctx.tier == "quick" else 200):
         cmds.append(("setfreq_h1", rng.below(64), rng.below(64), sorted(set(rng.range(1, 124) for _ in range(rng.range(1, 64))))))
         cmds.append(("setfreq_h0", rng.choice([1, 124, 512, 885, 975, 1023])))
@@ -196,6 +198,11 @@ def trxcon_end_to_end(ctx, rng):
                 if r.get("crash") or not (r["outcome"].startswith("accepted") or (r["outcome"] == "error" and status != "0")):
                     ctx.oracle_fail("trxcon's response parser does not accept the toolkit's reply", dict(cmd=text.decode("latin-1")[:120], reply=reply.decode("latin-1")[:120], result=str(r)[:300]),
                                     key="c05-trxcon-rejects-reply")
+                if c[0] == "setta" and status == "0":
+                    got_ta = s.state()[0][ms]["sim"][10]
+                    if got_ta != c[1]:
+                        ctx.oracle_fail("the timing advance the toolkit applies is not the one trxcon was asked to set", dict(ta=c[1], cmd=text.decode("latin-1"), reply=reply.decode("latin-1")),
+                                        key="c05-trxcon-setta-value", expected=c[1], observed=got_ta)
                 if text.startswith(b"CMD SETFH") and status == "0":
                     fh = s.state()[0][ms]["fh"]
                     want = len(c[3])
@@ -206,6 +213,10 @@ def trxcon_end_to_end(ctx, rng):
     finally:
         s.close()
     ctx.count("trxcon_commands_end_to_end", n)
+    # trxcon's command printers against the model of trx_if.c (every command type, boundary parameters)
+    pc = TI.sample_cmds(rng, 60 if ctx.tier == "quick" else 400)
+    pobs = [TI.parse_cmd_obs(t) for t in TI.run_lines([TI.cmd_line(c, fork=(c[0] == "setslot")) for c in pc])]
+    ctx.correspond("trx_if_handle_phyif_cmd", "TrxIf", list(range(len(pc))), lambda j: TI.m_cmd_line(pc[j]), lambda j: TI.cmd_wire(pobs[j]), show=lambda j: pc[j][:3])
 
 
 def run(ctx):
